@@ -201,13 +201,13 @@ def isInside (r : α) (eqs : List (Plane α)) (faces : List (List (V3 α)))
   let inPolyhedron : List Bool := pointPlaneDistances.map fun row => row.all fun d => decide (d ≤ lit 0)
   -- exit early if all points are inside the convex polyhedron
   if inPolyhedron.all id then pure inPolyhedron
-  else do
-    -- compute extrusions of the faces (Qhull; may raise)
-    let extruded ← prisms
+  else
     let pointFacesToCheck : List (List Bool) := pointPlaneDistances.map fun row => row.map (toCheck r)
-    -- exit early if there is nothing to check
+    -- exit early if there is nothing to check (always the case for a zero rounding radius)
     if !(pointFacesToCheck.any fun row => row.any id) then pure inPolyhedron
-    else
+    else do
+      -- compute extrusions of the faces (Qhull; may raise)
+      let extruded ← prisms
       let inSpheroShape : List Bool :=
         (pts.zip pointFacesToCheck).map fun pc =>
           spheroLoop r pc.1 (pc.2.zip (extruded.zip faces)) false
